@@ -507,6 +507,11 @@ pub fn err_contexts() -> Vec<(&'static str, fn(I) -> I)> {
         // a value was appended to a global stream earlier in the very run that ends with the failure
         ("after-stream-ap", |f| seq(I::Ap { src: Arg::Str("v".into()), dst: "$g".into() }, f)),
         ("after-stream-call", |f| seq(call("A", "w", vec![], st("$g")), f)),
+        // an earlier xor caught a failure and its handler contained a fire-and-forget call that failed as well (the par
+        // swallows that second failure); then the instruction under test fails
+        ("after-handler-with-swallowed-failure", |f| seq(xor(call("A", "failx", vec![], Out::None), par(call("A", "faily", vec![], Out::None), I::Null)), f)),
+        // a failure swallowed by a par with no xor around it, earlier in the run
+        ("after-failure-swallowed-by-par", |f| seq(par(call("A", "failz", vec![], Out::None), I::Null), f)),
         ("par-before-waiting-join", |f| par(f, par(call("B", "slow", vec![], sc("q")), par(call("A", "ga", vec![var("q")], Out::None), call("B", "gb", vec![var("q")], Out::None))))),
     ]
 }
